@@ -21,6 +21,14 @@ pub struct LocustDB {
     inner_locustdb: Arc<InnerLocustDB>,
 }
 
+#[cfg(feature = "verif")]
+impl LocustDB {
+    /// Verification hook: read access to the shared database state (table snapshots, column images).
+    pub fn verif_inner(&self) -> &Arc<InnerLocustDB> {
+        &self.inner_locustdb
+    }
+}
+
 impl LocustDB {
     pub fn memory_only() -> LocustDB {
         LocustDB::new(&Options::default())
